@@ -87,13 +87,6 @@ Orig == EvalQ(P.orig, Ctx(P, asg, <<>>, P.defdb))
 Answer == res[Len(res)]
 Names(rel) == [i \in 1..Len(rel.hdr) |-> rel.hdr[i].c]
 
-\* C15: the last executed step is the data handed to the time-series model
-TSVerdict ==
-  LET t == Tabs(P)[1]
-      adm == TS!Admissible(P.ts, t.cols, asg[1])
-  IN IF IsErrRel(Answer) THEN "undecided-plan-column-resolution"
-     ELSE IF Canon(Answer.rows) \in adm THEN "ok" ELSE "model-input-not-admissible"
-
 \* a query shipped to an integration still carries an integration qualifier on a table or a column: evaluated THERE the
 \* name resolves to nothing, the fetch fails (the plan has no answer although the original query has one)
 Unstripped(q) == "unstripped" \in DOMAIN q /\ q.unstripped = 1
@@ -101,6 +94,14 @@ ShipsQualifiedName ==
   \E i \in 1..Len(P.steps) :
      \/ P.steps[i].kind = "fetch" /\ Unstripped(P.steps[i].q)
      \/ P.steps[i].kind \in {"multiple", "mapreduce"} /\ \E j \in 1..Len(P.steps[i].subs) : Unstripped(P.steps[i].subs[j].q)
+\* C15: the last executed step is the data handed to the time-series model
+TSVerdict ==
+  LET t == Tabs(P)[1]
+      adm == TS!Admissible(P.ts, t.cols, asg[1])
+  IN IF IsErrRel(Answer) /\ ShipsQualifiedName THEN "model-input-not-admissible:fetch-cannot-be-evaluated"
+     ELSE IF IsErrRel(Answer) THEN "undecided-plan-column-resolution"
+     ELSE IF Canon(Answer.rows) \in adm THEN "ok" ELSE "model-input-not-admissible"
+
 Verdict ==
   IF P.ts.on = 1 THEN TSVerdict ELSE
   LET o == Orig
